@@ -25,3 +25,35 @@ fn range_digits_exact() {
         }
     }
 }
+
+/// C19 / C13: RangeConstraintParameters::new makes ONE key pair, signs exactly the digits 0, 1, ..., 127 in this order
+/// with it, keeps all 128 signatures and publishes that key pair's public key.  Key generation and signing are
+/// recording stubs (their own contracts are discharged elsewhere); complete for the fixed parameter u = 128.
+#[kani::proof]
+#[kani::unwind(131)]
+#[kani::stub(crate::pointcheval_sanders::KeyPair::new, crate::pointcheval_sanders::verif_kani_ps::stub_keypair_new)]
+#[kani::stub(crate::pointcheval_sanders::Signature::new, crate::pointcheval_sanders::verif_kani_ps::stub_signature_new)]
+fn range_params_sign_each_digit() {
+    use crate::pointcheval_sanders::verif_kani_ps as st;
+    struct R;
+    impl rand::RngCore for R {
+        fn next_u32(&mut self) -> u32 { 0 }
+        fn next_u64(&mut self) -> u64 { 0 }
+        fn fill_bytes(&mut self, _d: &mut [u8]) {}
+        fn try_fill_bytes(&mut self, _d: &mut [u8]) -> Result<(), rand::Error> { Ok(()) }
+    }
+    impl rand::CryptoRng for R {}
+    let p = RangeConstraintParameters::new(&mut R);
+    unsafe {
+        assert!(st::KP_CALLS == 1);
+        assert!(st::SIGN_CALLS == 128);
+        let mut i = 0;
+        while i < 128 {
+            let want = core::mem::transmute::<Scalar, [u64; 4]>(Scalar::from(i as u64));
+            assert!(st::SIGNED[i] == want);
+            i += 1;
+        }
+    }
+    assert!(p.digit_signatures.len() == 128);
+    assert!(st::is_stub_public_key(&p.public_key));
+}
